@@ -38,6 +38,8 @@ other = value<<2
 lda #value&0xff
 lda.w #other|1
 lda #0x12ab >> 8
+lda #(3 + 4) - 1
+lda.w (3 + 4) * 2 - 1
 lda.w #1 << 4
 .db 1 << 4, 0x80 >> 3
 shifted = 0xF0 >> 4
@@ -133,6 +135,8 @@ def t_spaces(line, rng):
     if m and m.group(2).lower() in ops_set() and m.group(4):
         operand = m.group(4)
         operand = re.sub(r"\s*([+*&|]|<<|>>)\s*", lambda k: rng.choice(["", " ", "  "]) + k.group(1) + rng.choice(["", " "]), operand)
+        # a BINARY minus (something that ends a term before it, something that starts one after it): blanks around it are free as well
+        operand = re.sub(r"(?<=[0-9a-zA-Z_)])\s*-\s*(?=[0-9a-zA-Z_(])", lambda k: rng.choice(["", " ", "  "]) + "-" + rng.choice(["", " "]), operand)
         operand = re.sub(r"\s*,\s*", lambda k: rng.choice(["", " "]) + "," + rng.choice(["", " ", "  "]), operand)
         operand = re.sub(r"([(\[])\s*(?=[0-9a-zA-Z_])", lambda k: k.group(1) + rng.choice(["", " "]), operand)
         operand = re.sub(r"(?<=[0-9a-zA-Z])\s*([)\]])", lambda k: rng.choice(["", " "]) + k.group(1), operand)  # also after an inner index register: `(0x10,s ),y`
@@ -154,7 +158,7 @@ def relayout(lines, rng, use_include, tmpdir):
             out.append(rng.choice(["; a comment", "  ; indented comment with 'quote and /* inside", ";", "; else", ";else", "; nop", ";}", "; {"]))
         if rng.random() < 0.12 and depth == 0:
             out.append(rng.choice(["/* block comment */", "/* a\n   multi-line\n   comment */", "/* doc **/", "/** doc **/", "/***/", "/**/", "/**** banner ****/", "/* a * b / c ** d */",
-                                   "/* \u00e9t\u00e9 ; 'quote' */"]))
+                                   "/* \u00e9t\u00e9 ; 'quote' */", "/* block comments start with /* and end here */", "/*/* banner */", "/* a /* b */"]))
         l = line
         if rng.random() < 0.5:
             l = t_case(l, rng)
